@@ -32,6 +32,11 @@ def spell_chunk(args):
         ctext, _ = G.render(d, G.Spelling(rng, canonical=True))
         sp = []
         for j in range(nsp):
+            if j == 2:
+                # the far corner: every site of every documented freedom takes a non-canonical option
+                t, _ = G.render(d, G.Spelling(rng, only=set(FREEDOMS) | {"body_indent"}, extreme=True))
+                sp.append(("extreme", t, TC.eval_text(t)))
+                continue
             if j < 2:
                 # every freedom C03 documents, independently per site — and nothing else (omitting the envelope line of a
                 # document named INFERRED is a reader feature, not one of C03's freedoms)
